@@ -4,6 +4,7 @@ import LitexProofs.Stream.HandshakeConv
 import LitexProofs.Stream.HandshakeRoute
 import LitexProofs.Stream.HandshakeGearbox
 import LitexModel.Stream.NumG
+import LitexProofs.Stream.HandshakePacket
 /-
   C04 — Stream elements keep the handshake contract and never stall forever.
 
@@ -437,6 +438,24 @@ example :
     let i  : MuxIn Nat := { sel := 0, sinks := [(true, ⟨7, true, false⟩), (false, z)], ready := false }
     let i' : MuxIn Nat := { sel := 1, sinks := [(true, ⟨7, true, false⟩), (false, z)], ready := false }
     (muxOut 2 z i).valid = true ∧ (muxOut 2 z i').valid = false := by decide
+
+/-! ## packet.Dispatcher -/
+
+/-- Under cooperative slaves (every `slave_k.ready` high) `master.ready` is high in the same cycle, from *every*
+    state and for *every* selector value — binary or one-hot, matched or not (an unmatched selector drains the
+    packet through the `default` case).  Hence a master beat offered is transferred at once: K = 1. -/
+theorem dispatcher_progress (m : Nat) (oneHot : Bool) (s : Litex.Packet.DispState) (i : Litex.Packet.DispIn)
+    (hr : ∀ k, k < m → i.readys.getD k false = true) :
+    ((Litex.Packet.dispatcher m oneHot).out s i).ready = true :=
+  Litex.Packet.dispReady_of_all_ready m oneHot s i hr
+
+/-- Non-vacuity incl. the unmatched selector: 3 slaves, binary `sel = 3`, all slaves ready, mid-packet state. -/
+example :
+    ((Litex.Packet.dispatcher 3 false).out { first := false, selOngoing := 3 }
+      { master := { valid := true, data := 1, last := false }, sel := 0, readys := [true, true, true] }).ready = true ∧
+    ((Litex.Packet.dispatcher 3 false).out { first := true, selOngoing := 0 }
+      { master := { valid := true, data := 1, last := false }, sel := 1, readys := [true, false, true] }).ready = false := by
+  decide
 
 /-! ## packet.Status -/
 
